@@ -2,7 +2,7 @@
 //! property's own oracle.  Each function belongs to one property's check.
 use crate::absarch::abstract_archive;
 use crate::compare::trunc;
-use crate::hist::copy_dir;
+use crate::hist::{all_bands, copy_dir};
 use crate::icept::{Icept, IceptConfig};
 use crate::real::*;
 use crate::report::Report;
@@ -284,3 +284,130 @@ pub fn c17_delete_two_faults(report: &mut Report) {
 
 #[allow(dead_code)]
 pub fn unused(_: PathBuf) {}
+
+/// C02 / C07: version ids beyond four digits.  `b10000` sorts BEFORE `b9999` as a string; ids are numbers.
+/// One backup is made and its directory renamed to `b9998` — the layout of an archive whose first 9998 versions
+/// were made and deleted long ago — then the history goes on across the boundary.
+fn archive_near_10000(work: &Path) -> (PathBuf, PathBuf, Vec<(u32, Vec<crate::treespec::Obs>)>) {
+    let (src, arch) = (work.join("src"), work.join("arch"));
+    small_source(&src, &["a", "b"], "version 9998");
+    create_archive(&arch);
+    let p = params(1000);
+    let _ = real_backup(&arch, &src, &p, IceptConfig::default());
+    std::fs::rename(arch.join("b0000"), arch.join("b9998")).unwrap();
+    let mut snaps = vec![(9998u32, observe(&src))];
+    for id in [9999u32, 10000, 10001] {
+        std::fs::write(src.join("a"), format!("a: this is the content of version {id}, each one longer {}", "x".repeat((id % 7) as usize))).unwrap();
+        std::fs::write(src.join(format!("only-in-{id}")), format!("new in {id}")).unwrap();
+        let _ = real_backup(&arch, &src, &p, IceptConfig::default());
+        snaps.push((id, observe(&src)));
+    }
+    (src, arch, snaps)
+}
+
+pub fn c02_ids_beyond_9999(report: &mut Report) {
+    let work = tempfile::tempdir().unwrap();
+    let (_src, arch, snaps) = archive_near_10000(work.path());
+    report.case("plumbing/c02/ids-beyond-9999", true);
+    report.hit("directed:version-ids-beyond-9999");
+    let case = json!({"directed": "versions b9998, b9999, b10000, b10001 (the first renamed from b0000)"});
+    let (st, _) = abstract_archive(&arch);
+    let mut ids = all_bands(&st);
+    ids.sort();
+    if ids != vec![9998, 9999, 10000, 10001] {
+        report.oracle_fail("hist:wrong-version-ids-beyond-9999", case.clone(), "backups across the 9999/10000 boundary did not get consecutive ids above every existing one", json!(ids));
+        return;
+    }
+    for (id, snap) in &snaps {
+        let (rr, robs) = crate::hist::restore_observe(&arch, work.path(), &Sel::Band(*id), &format!("v{id}"));
+        if !rr.result.starts_with("result ok") || !rr.events.is_empty() || crate::c01::tree_diff(snap, &robs).is_some() {
+            report.oracle_fail("hist:restored-differs-beyond-9999", case.clone(), "a version near the 9999/10000 boundary does not restore as when it was made", json!({"band": band_name(*id), "result": trunc(&rr.result)}));
+        }
+    }
+    let (rr, robs) = crate::hist::restore_observe(&arch, work.path(), &Sel::Closed, "latest");
+    if !rr.result.starts_with("result ok") || crate::c01::tree_diff(&snaps.last().unwrap().1, &robs).is_some() {
+        report.oracle_fail("hist:latest-not-newest-beyond-9999", case, "asking for the latest complete version does not give b10001, the newest (b10000 sorts before b9999 as a string)", json!({"result": trunc(&rr.result)}));
+    }
+}
+
+pub fn c07_ids_beyond_9999(report: &mut Report) {
+    let work = tempfile::tempdir().unwrap();
+    let (src, arch, _snaps) = archive_near_10000(work.path());
+    report.case("plumbing/c07/ids-beyond-9999", true);
+    report.hit("directed:version-ids-beyond-9999");
+    // leave {b9998, b10000}: the slot after the four-digit version is free again
+    let _ = real_delete(&arch, &[9999, 10001], false, false, IceptConfig::default());
+    let before = crate::hist::raw_files(&arch);
+    std::fs::write(src.join("a"), b"a: yet another content, for the version after the deletions").unwrap();
+    let r = real_backup(&arch, &src, &params(1000), IceptConfig::default());
+    let after = crate::hist::raw_files(&arch);
+    let case = json!({"directed": "versions b9998 and b10000 present (b9999 and b10001 deleted), then a backup", "result": trunc(&r.result)});
+    for (k, v) in &before {
+        if after.get(k) != Some(v) {
+            report.oracle_fail("backup-altered-file", case.clone(), "a backup altered or removed an existing archive file", json!(k));
+            break;
+        }
+    }
+    let (st, _) = abstract_archive(&arch);
+    let mut ids = all_bands(&st);
+    ids.sort();
+    let new: Vec<u32> = ids.iter().copied().filter(|b| *b != 9998 && *b != 10000).collect();
+    if r.result.starts_with("result ok") && new != vec![10001] {
+        report.oracle_fail("new-version-id-not-above-existing", case, "a new version did not get an id above every existing one", json!({"versions_now": ids}));
+    }
+}
+
+/// C13: something else left a directory inside a version's index directory (a sync tool's `.rsync-partial`),
+/// then gc runs.  What the independent reader finds afterwards must still hold: every address of every version
+/// resolves inside a stored block.
+pub fn c13_stray_dir_in_index(report: &mut Report) {
+    let work = tempfile::tempdir().unwrap();
+    let (src, arch) = (work.path().join("src"), work.path().join("arch"));
+    small_source(&src, &["a", "b", "c"], "v0");
+    create_archive(&arch);
+    let p = params(2);
+    let _ = real_backup(&arch, &src, &p, IceptConfig::default());
+    small_source(&src, &["a", "b", "c", "d"], "the second version, other sizes");
+    let _ = real_backup(&arch, &src, &p, IceptConfig::default());
+    for stray in [".rsync-partial", "#recycle", "@eaDir"] {
+        std::fs::create_dir_all(arch.join("b0001/i").join(stray)).unwrap();
+    }
+    let gc = real_delete(&arch, &[], false, false, IceptConfig::default());
+    report.case("plumbing/c13/stray-dir-in-index", true);
+    report.hit("directed:stray-directory-inside-an-index-directory");
+    let case = json!({"directed": "stray directories (.rsync-partial, #recycle, @eaDir) inside b0001/i, then gc", "gc": trunc(&gc.result)});
+    for band in [0u32, 1] {
+        for (sig, what) in crate::c13::raw_reader(&arch, band, &std::collections::BTreeMap::new()) {
+            report.oracle_fail(&sig, case.clone(), "after a gc on an archive with stray directories in an index directory the independent reader found a violation", what);
+        }
+    }
+}
+
+/// C05: garbage collection and a delete on an archive whose version ids cross 9999 → 10000: nothing a kept
+/// version needs is removed, dry runs predict the same, and every kept version restores.
+pub fn c05_ids_beyond_9999(report: &mut Report) {
+    let work = tempfile::tempdir().unwrap();
+    let (_src, arch, snaps) = archive_near_10000(work.path());
+    report.case("plumbing/c05/ids-beyond-9999", true);
+    report.hit("directed:version-ids-beyond-9999");
+    let dry = real_delete(&arch, &[], true, false, IceptConfig::default());
+    let gc = real_delete(&arch, &[], false, false, IceptConfig::default());
+    let del = real_delete(&arch, &[9999], false, false, IceptConfig::default());
+    let case = json!({"directed": "versions b9998, b9999, b10000, b10001; gc (dry and real), then delete b9999", "dry": trunc(&dry.result), "gc": trunc(&gc.result), "delete": trunc(&del.result)});
+    let count = |r: &RunResult, key: &str| r.result.split(' ').find_map(|t| t.strip_prefix(key)).and_then(|v| v.parse::<u64>().ok());
+    if count(&dry, "unreferenced_block_count=") != Some(0) || count(&gc, "deleted_block_count=") != Some(0) {
+        report.oracle_fail("delete:referenced-block-removed", case.clone(), "a gc on an archive in which every block is referenced found (or removed) something", json!(null));
+    }
+    for (id, snap) in snaps.iter().filter(|(id, _)| *id != 9999) {
+        let (rr, robs) = crate::hist::restore_observe(&arch, work.path(), &Sel::Band(*id), &format!("k{id}"));
+        if !rr.result.starts_with("result ok") || !rr.events.is_empty() || crate::c01::tree_diff(snap, &robs).is_some() {
+            report.oracle_fail("delete:kept-version-harmed", case.clone(), "a kept version near the 9999/10000 boundary no longer restores exactly after gc / delete", json!({"band": band_name(*id), "result": trunc(&rr.result), "events": rr.events.iter().take(2).collect::<Vec<_>>()}));
+        }
+    }
+    let (st, _) = abstract_archive(&arch);
+    let mut ids = all_bands(&st);
+    ids.sort();
+    if ids != vec![9998, 10000, 10001] {
+        report.oracle_fail("delete:wrong-versions-gone", case, "not exactly the requested version was removed", json!(ids));
+    }
+}
